@@ -184,11 +184,17 @@ def discard (s : State) : State :=
 /-- queue.go:208-212 -/
 def lastQueued (s : State) : Nat × Int := (s.lastQ, (s.cap : Int) - s.len)
 
+/-- queue.go `Notify` (aea938c): a non-blocking signal on `checkBlocks` unless the queue is discarded. It is
+called by Server.relayBlocksLoop for every block the ledger reports (server.go:1832), i.e. some time after every
+addition to the chain, whoever made it: a separate step that may come arbitrarily late. -/
+def notify (s : State) : State := if s.discarded then s else { s with signal := true }
+
 inductive Act
   | put (e : Elem) (hr : Nat)   -- `hr` is clipped to the current height (a read of a monotone counter)
   | run
   | adv
   | disc
+  | notify                      -- Queue.Notify: the server heard of a block added to the ledger (aea938c)
 deriving DecidableEq, Repr
 
 def apply (s : State) : Act → State
@@ -196,6 +202,7 @@ def apply (s : State) : Act → State
   | .run => runStep s
   | .adv => chainAdvance s
   | .disc => discard s
+  | .notify => notify s
 
 def exec (s : State) : List Act → State
   | [] => s
